@@ -159,6 +159,8 @@ def m2_accessor(run, project, L):
                 run.ob("M2", okc, f"{k}.{name}: on the class the accessor is the named mask",
                        f"{k}.{name} read on the class gives {got!r} built from {made}; required cls(value={mask:#x}, name={name!r})",
                        module=mod, node=f, func="Bit.__get__", construct="Bit.__get__ on class")
+    from .shared import value_keyed_memo
+    value_keyed_memo(run, project, "M3", what="an attribute word is printed with the rows of another attribute type")
     run.require(n >= 40, f"M2: accessor folded over only {n} masks")
     run.ob("M2", True, "every mask attribute is replaced by its accessor, built from the attribute's name and mask (located by role)")
     # attributes(): every public non-routine attribute of type(self)
@@ -279,8 +281,10 @@ def m2_rows(run, project, L):
             vals.update(dict(zip(_fpar, a)))
             vals.update(kw)
             return ("row",) + tuple(vals.get(x) for x in _fpar)
-        it = Interp({"format": fake_format, "PathNode": lambda name=None, **kw: ("node", name if name is not None else kw.get("name"))},
-                    module_tree=mod.tree, max_steps=400000)
+        g_ = {"format": fake_format, "PathNode": lambda name=None, **kw: ("node", name if name is not None else kw.get("name"))}
+        it = Interp(g_, module_tree=mod.tree, max_steps=400000)
+        from ..minieval import bind_project
+        bind_project(it, project, mod, g_)   # (row helpers of other project modules are evaluated from their source as well)
         try:
             it.call(f, [event])
             rows = list(it.yields)
